@@ -12,10 +12,11 @@ import TypelibModel.Drv.Inspect
 import TypelibModel.Drv.Cache
 import TypelibModel.Drv.Routine
 import TypelibModel.Drv.Fields
+import TypelibModel.Drv.Naming
 open Lean Typelib.Drv
 
 def handlers : List (St → String → Json → Option (Except String (St × Json))) :=
-  [handleCore, handleBinding, handleFuture, handleCtx, handleSlotted, handleGraph, handleInspect, handleCache, handleRoutine, handleFields]
+  [handleCore, handleBinding, handleFuture, handleCtx, handleSlotted, handleGraph, handleInspect, handleCache, handleRoutine, handleFields, handleNaming]
 
 def step (st : St) (line : String) : St × String :=
   match Json.parse line with
